@@ -9,7 +9,9 @@ component properties (`C09:*`: reaching definitions, `C02:promote`: narrowing) p
 
 Skeleton: `a0`/`a1` assignment to `v` (`a1`: the assigned value depends on `v`'s previous value, directly or
 through names assigned in the same loop), `o` another simple statement, `u f` the failing evaluation
-(`f`: an `isinstance(v, float|complex)` test occurs in the same statement), `br`, `co`, `ret`, `rs`,
+(test flag `f` = 1: an `isinstance(v, float|complex)` test occurs in the same statement / condition; `f` = 2: the
+condition is the truth value of another variable `w` that was assigned from an expression containing a test on `v`),
+`br`, `co`, `ret`, `rs`,
 `ite f B E`, `loop always f B E` (`while`/`for`; `always`: `while True`), `try B Hs E F`,
 `mt irrefutable f Cs` (`match`; `irrefutable`: the last case is a wildcard / capture without guard).
 
@@ -21,11 +23,11 @@ namespace Pya.C01
 
 inductive Sk where
   | a0 | a1 | o | br | co | ret | rs
-  | u (f : Bool)
-  | ite (f : Bool) (b e : List Sk)
-  | loop (always f : Bool) (b e : List Sk)
+  | u (f : Nat)
+  | ite (f : Nat) (b e : List Sk)
+  | loop (always : Bool) (f : Nat) (b e : List Sk)
   | try_ (b : List Sk) (hs : List (List Sk)) (e f : List Sk)
-  | mt (irref f : Bool) (cs : List (List Sk))
+  | mt (irref : Bool) (f : Nat) (cs : List (List Sk))
   deriving Repr, Inhabited
 
 mutual
@@ -137,20 +139,29 @@ def P_nestedLoopJump : Sk → Bool
      Sk.anyL (fun y => y.isLoop && Sk.anyS (Sk.isJump false) y) e) && (Sk.loop a f b e).hasA
   | _ => false
 /-- C02 `promote`: an `isinstance(v, float|complex)` test (its negative branch drops int / bool members) -/
-def P_promote : Sk → Bool
+def Sk.testFlag : Sk → Nat
   | .ite f _ _ => f
   | .loop _ f _ _ => f
   | .u f => f
   | .mt _ f _ => f
-  | _ => false
-/-- own class: a `match` whose last case is irrefutable, nested in a branch: visit_Match marks the ENCLOSING
-scope as left, so the state of that branch is dropped at the next join. -/
+  | _ => 0
+def P_promote (s : Sk) : Bool := s.testFlag == 1
+/-- own class: the condition is the truth value of a variable `w` whose value is a union in which ONE member (a
+comparison / isinstance / `not` result) carries a constraint on `v` (`w = t + t if v else v is not None; if w: …`):
+pyanalyze applies that constraint (inverted in the else branch) to `v` although the truth value of `w` may come from
+another member of the union. -/
+def P_unionMemberConstraint (s : Sk) : Bool := s.testFlag == 2
+/-- own class: a `match` nested in a branch (of an `if`, a loop, a `try`, another `match`). When the cases
+exhaust the subject's inferred type (a wildcard last case, or `case None:` on a `None` subject, …) visit_Match marks
+the ENCLOSING scope as left, so the state of that branch is dropped at the next join. (Exhaustiveness depends on the
+inferred type of the subject; the predicate is the syntactic region.) -/
 def P_matchExhaustive (s : Sk) : Bool :=
-  Sk.anyLL (fun y => match y with | .mt i _ _ => i | _ => false) s.blocks
+  Sk.anyLL (fun y => match y with | .mt _ _ _ => true | _ => false) s.blocks
 
 def d01Classes (prog : List Sk) : List String :=
   let c (name : String) (P : Sk → Bool) : List String := if scanL P false prog then [name] else []
-  c "C02:promote" P_promote ++ c "loopCarriedLiteral" P_loopCarriedLiteral ++
+  c "C02:promote" P_promote ++ c "unionMemberConstraint" P_unionMemberConstraint ++
+  c "loopCarriedLiteral" P_loopCarriedLiteral ++
   c "matchExhaustiveLeavesScope" P_matchExhaustive ++ c "C09:loopElse" P_loopElse ++
   c "C09:secondVisitSeed" P_secondVisitSeed ++ c "C09:loopBreak" P_loopBreak ++
   c "C09:jumpThroughFinally" P_jumpThroughFinally ++ c "C09:loopJumpInSuppressing" P_loopJumpInSuppressing ++
@@ -161,5 +172,19 @@ def d01Classes (prog : List Sk) : List String :=
 argument only, so the element types of the left operand are lost. `op`: the operator, `l`/`r`: both runtime
 operands are tuples. -/
 def D01_tupleConcat (isAdd lTuple rTuple : Bool) : Bool := isAdd && lTuple && rTuple
+
+/-- class `C04:seqLeniency` for failing *calls*: a type variable that occurs in two parameters is solved from a
+tuple form (`tuple[int, str]`, `tuple[int, *tuple[str, ...]]`) and a homogeneous `tuple[T, ...]` / `list[T]`;
+`can_assign` accepts the homogeneous type for the form (a leniency C04 documents and excludes), so
+`remove_redundant_solutions` keeps only the form and the other argument's values are outside the result.
+`shared`: the callee has a type variable in two parameters; `seqForm`: the inferred result is a tuple / list form;
+`valSeq`: the runtime result is a tuple or list. -/
+def D01_seqLeniency (shared seqForm valSeq : Bool) : Bool := shared && seqForm && valSeq
+
+/-- class `setDisplayOrder` for failing *calls*: `list(s)` / `tuple(s)` of a set display `s = {a, b, c}` is inferred
+as the list / tuple form with the members of the display in source order, although a set iterates in hash order
+(and merges equal elements). `conv`: the callee is `list` or `tuple`; `seqForm`: the inferred result is a
+list / tuple form; `valSeq`: the runtime result is a list or tuple. -/
+def D01_setDisplayOrder (conv seqForm valSeq : Bool) : Bool := conv && seqForm && valSeq
 
 end Pya.C01
